@@ -58,6 +58,7 @@ def run(ck, m):
     ck.floor('C11.g', n, 3, 'address rules of C06 evaluated')
     one_mode_rule(ck, m)
     loader_is_read_only(ck, m)
+    value_appended_before_its_key_record(ck, m)
 
 
 def _run(ck, m):
@@ -525,3 +526,40 @@ def loader_is_read_only(ck, m, rule='C11.k'):
           'the %d bodies reachable from the loader only read' % len(seen) if not bad else
           'the load path changes files: %s' % sorted(set(bad))[:4], '%s:%s' % (ld[0].file, ld[0].line))
     ck.floor(rule, len(seen), 2, 'bodies reachable from the loader')
+
+
+def value_appended_before_its_key_record(ck, m, rule='C11.l'):
+    """C11.l — see RULES"""
+    P = m.prog
+    ck.rule(rule, 'a key record is written after the value record it points at: in the snapshot writer (and the helpers it alone uses) every call '
+                  'that writes a key record (append or in-place update) is dominated by the append of the value record of the same entry — a key '
+                  'record that is updated in place first points, from that instant until the value is appended and flushed, at bytes that are not '
+                  'there yet; a kill in between leaves a previously persisted key with a value that was never stored')
+    wr = [b for b in P.user_bodies() if b.id.endswith('NodeDrive::storage_data_disk')]
+    if not wr:
+        ck.undecided(rule, 'writer', 'anchor', 'disk snapshot writer not found')
+        return
+    wb = wr[0]
+    units = [wb] + [h for h in P.private_helpers(wb) if 'storage::' in h.id]
+    n, bad = 0, []
+    for ub in units:
+        vals = [bi for bi, t in ub.calls() if callee(t).split('::')[-1] == 'write_value']
+        keys = [(bi, callee(t).split('::')[-1]) for bi, t in ub.calls() if callee(t).split('::')[-1] in ('write_key', 'update_key')]
+        for kb, nm in keys:
+            # a record that keeps pointing at the value the entry already has on disk (the tombstone update of a removed key) needs no append
+            def _fresh(a):
+                p_ = a.get('m') or a.get('c')
+                if p_ is None or ub.locals[p_['l']] != 'u64':
+                    return False
+                rs = origins(ub, a, stop_at_calls=True)
+                return any(not (r[0] == 'const' or any(q[0] == 'f' and q[2] in ('key_disk_addr', 'value_disk_addr')
+                                                        for q in (r[-1] if isinstance(r[-1], tuple) else ()))) for r in rs)
+            if not any(_fresh(a) for a in ub.term(kb)['args']):
+                continue      # points at nothing new: a constant (the tombstone) or the addresses the entry already has on disk
+            n += 1
+            if not any(ub.dominates(v, kb) for v in vals):
+                bad.append('%s in %s (%s)' % (nm, short(ub.id), ub.loc(kb)))
+    ck.ob(rule, short(wb.id), 'value-appended-before-its-key-record', n > 0 and not bad,
+          'each of the %d key-record writes follows the append of its value record' % n if n > 0 and not bad else
+          'a key record is written before the value record it points at is appended: %s' % sorted(set(bad)), '%s:%s' % (wb.file, wb.line))
+    ck.floor(rule, n, 2, 'key-record writes of the snapshot writer')
